@@ -180,6 +180,7 @@ structure Prod where
   txParts : List Nat := []
   lastWasCommit : Bool := false
   wins : List (Nat × Win) := []
+  txBytes : List (Nat × Int) := []      -- txPartBytes: bytes of this transaction's batches per partition
 deriving Repr
 
 structure SPart where
@@ -228,7 +229,7 @@ def endTx (s : State) (k : Int) (pr : Prod) (commit : Bool) : State :=
     | some pd => ps.set p (endTxPart pd k pr.epoch commit)
     | none => ps) s.parts
   setProd { s with parts := parts } k
-    { pr with txParts := [], inTx := false, lastWasCommit := commit }
+    { pr with txParts := [], inTx := false, lastWasCommit := commit, txBytes := [] }
 
 /-- `bumpEpoch` below the exhaustion threshold (32766; the histories stay far below, see the assumptions). -/
 def bump (pr : Prod) : Prod := { pr with epoch := pr.epoch + 1 }
@@ -313,6 +314,11 @@ def endTxn (s : State) (v5 : Bool) (k epoch : Int) (commit : Bool) : State × In
         (setProd s1 k pr1, 0, pr1.epoch)
       else (s1, 0, -1)
 
+/-- `txPartBytes` bookkeeping of the produce handler. -/
+def addTxBytes (pr : Prod) (p : Nat) (nb : Int) : Prod :=
+  if (pr.txBytes.lookup p).isSome then { pr with txBytes := pr.txBytes.map (fun e => if e.1 == p then (p, e.2 + nb) else e) }
+  else { pr with txBytes := pr.txBytes ++ [(p, nb)] }
+
 /-- `pids.get` (with the implicit partition addition of produce v12+): the producer state whose window is used, if any. -/
 def pidsGet (s : State) (v12 : Bool) (k : Int) (p : Nat) (tx : Bool) : State × Option Prod :=
   match getProd s k with
@@ -356,7 +362,9 @@ def produce (s : State) (v12 : Bool) (k epoch seq n nbytes : Int) (p : Nat) (tx 
           match wr.2 with
           | .reject => (s3, 45, 0, -1)
           | .dup off => (s3, 0, off, -1)
-          | .accept => (setPart s3 p (pushBatch pd ⟨0, n, k, epoch, seq, tx, false, false, nbytes⟩ tx), 0, pd.hwm, pd.logStart)
+          | .accept =>
+            let s4 := if tx then setProd r2.1 k (addTxBytes (setWin pr1 p wr.1) p nbytes) else s3
+            (setPart s4 p (pushBatch pd ⟨0, n, k, epoch, seq, tx, false, false, nbytes⟩ tx), 0, pd.hwm, pd.logStart)
 
 /-! ### Fetch -/
 
@@ -417,6 +425,8 @@ structure FetchOp where
   sepoch : Int
   req : List FReq
   forget : List Nat
+  minBytes : Int := 0
+  maxWait : Int := 0
 deriving Repr
 
 /-- The session partitions that are not named in the request are walked in Go map order: `ord` is that
@@ -427,7 +437,7 @@ def implicitOrder (ord : List Nat) (impl : List SPart) : List SPart :=
   let chosen := chosen.foldl (fun acc e => if acc.any (fun x => x.p == e.p) then acc else acc ++ [e]) []
   chosen ++ impl.filter (fun e => !chosen.any (fun x => x.p == e.p))
 
-/-- `handleFetch` with `MinBytes = 0`: (state, top-level error, session id, partitions of the response). -/
+/-- `handleFetch` once it answers (no waiting, or woken): (state, top-level error, session id, partitions of the response). -/
 def fetch (s : State) (f : FetchOp) (ord : List Nat) : State × Int × Int × List PResp :=
   let unk : Int := if f.v13 then 100 else 3
   let without (id : Int) := s.sessions.filter (fun x => x.id != id)
@@ -455,6 +465,94 @@ def fetch (s : State) (f : FetchOp) (ord : List Nat) : State × Int × Int × Li
         let se' : Session := ⟨se.id, se.epoch + 1, sessRecord ps resp⟩
         ({ s with sessions := s.sessions.map (fun x => if x.id == se.id then se' else x) }, 0, se.id, kept)
 
+/-! ### Waiting fetches (`MinBytes > 0`) -/
+
+/-- the byte count of the first pass of `handleFetch` over one partition: (bytes, returnEarly). -/
+def firstPassWalk (rc : Bool) (lso pmax : Int) : List Batch → Int → Int × Bool
+  | [], acc => (acc, false)
+  | m :: r, acc =>
+    if rc && m.first ≥ lso then (acc, false)
+    else if acc + m.nbytes ≥ pmax then (acc + m.nbytes, true)
+    else firstPassWalk rc lso pmax r (acc + m.nbytes)
+
+/-- the first pass: (returnEarly, bytes available, per-partition remaining bytes `needp`, watched partitions). -/
+def firstPass (parts : List Part) (rc : Bool) (reqs : List FReq) : Bool × Int × List (Nat × Int) × List Nat :=
+  reqs.foldl (fun (acc : Bool × Int × List (Nat × Int) × List Nat) fp =>
+    match parts[fp.p]? with
+    | none => acc
+    | some pd =>
+      let acc : Bool × Int × List (Nat × Int) × List Nat := (acc.1, acc.2.1, acc.2.2.1, acc.2.2.2 ++ [fp.p])
+      match searchOffset pd fp.off with
+      | .atEnd => acc
+      | .outOfRange => (true, acc.2)
+      | .found bs =>
+        let w := firstPassWalk rc pd.lso fp.pmax bs 0
+        (acc.1 || w.2, acc.2.1 + w.1, acc.2.2.1 ++ [(fp.p, fp.pmax - w.1)], acc.2.2.2)) (false, 0, [], [])
+
+/-- `watchFetch`: bytes still needed in total and per partition, and the partitions it is registered on. -/
+structure Watch where
+  need : Int
+  needp : List (Nat × Int)
+  watched : List Nat
+deriving Repr
+
+/-- what the end of producer `pr`'s transaction adds to a waiting fetch on partition `p`: the marker
+(`pushBatch` → `w.push`) and, for read_committed, the transaction's bytes there (`endTx` → `w.addBytes`). -/
+def wakeBytes (rc : Bool) (pr : Prod) (p : Nat) : Int :=
+  ctlBytes + (if rc then (match pr.txBytes.lookup p with | some b => if b > 0 then b else 0 | none => 0) else 0)
+
+/-- While a fetch waits only transaction timeouts happen: the next one before the deadline, whether it wakes the fetch. -/
+def waitStep (s : State) (rc : Bool) (w : Watch) (deadline : Int) : Option (State × Watch × Bool) :=
+  let cands := s.prods.filter (fun e => e.2.inTx && e.2.txStart + e.2.timeout ≤ deadline)
+  match cands with
+  | [] => none
+  | c :: cs =>
+    let m := cs.foldl (fun (a : Int × Prod) e => if e.2.txStart + e.2.timeout < a.2.txStart + a.2.timeout then e else a) c
+    let touched := m.2.txParts.filter (fun p => decide (p < s.parts.length) && w.watched.contains p)
+    let need' := touched.foldl (fun a p => a - wakeBytes rc m.2 p) w.need
+    let needp' := w.needp.map (fun e => if touched.contains e.1 then (e.1, e.2 - wakeBytes rc m.2 e.1) else e)
+    let fired := decide (need' ≤ 0) || needp'.any (fun e => touched.contains e.1 && decide (e.2 ≤ 0))
+    let s1 := { s with now := m.2.txStart + m.2.timeout }
+    match expireOne s1 with
+    | none => none
+    | some s2 => some (s2, ⟨need', needp', w.watched⟩, fired)
+
+def waitLoop : Nat → State → Bool → Watch → Int → State
+  | 0, s, _, _, deadline => { s with now := deadline }
+  | f + 1, s, rc, w, deadline =>
+    match waitStep s rc w deadline with
+    | none => { s with now := deadline }
+    | some (s2, w2, fired) => if fired then s2 else waitLoop f s2 rc w2 deadline
+
+/-- `handleFetch` including the wait: (state, elapsed ms, top-level error, session id, partitions). When it waits, the
+handler has already run its session part once (a new session is created, and a second one when it is woken). -/
+def fetchW (s : State) (f : FetchOp) (ord : List Nat) : State × Int × Int × Int × List PResp :=
+  let toFetch : Option (List FReq) :=
+    if f.sepoch == -1 || f.sepoch == 0 then some f.req
+    else match s.sessions.find? (fun x => x.id == f.sid) with
+      | none => none
+      | some se =>
+        if f.sepoch != se.epoch then none
+        else
+          let ps := f.req.foldl sessUpdate (se.parts.filter (fun e => !f.forget.contains e.p))
+          some (f.req ++ (ps.filter (fun e => !f.req.any (fun r => r.p == e.p))).map (fun e => ⟨e.p, e.off, e.pmax⟩))
+  match toFetch with
+  | none => let r := fetch s f ord; (r.1, 0, r.2)
+  | some tf =>
+    let fp := firstPass s.parts f.rc tf
+    if fp.1 || fp.2.1 ≥ f.minBytes || f.maxWait ≤ 0 then let r := fetch s f ord; (r.1, 0, r.2)
+    else
+      let without (id : Int) := s.sessions.filter (fun x => x.id != id)
+      let s1 : State :=
+        if f.sepoch == 0 then
+          { s with sessions := (if f.sid > 0 then without f.sid else s.sessions) ++ [⟨s.nextSid, 1, f.req.foldl sessUpdate []⟩],
+                   nextSid := s.nextSid + 1 }
+        else if f.sepoch == -1 && f.sid > 0 then { s with sessions := without f.sid }
+        else s
+      let s2 := waitLoop (s1.prods.length + 1) s1 f.rc ⟨f.minBytes - fp.2.1, fp.2.2.1, fp.2.2.2⟩ (s.now + f.maxWait)
+      let r := fetch s2 f ord
+      (r.1, s2.now - s.now, r.2)
+
 /-! ### Operations of a history -/
 
 inductive Op where
@@ -474,7 +572,7 @@ inductive Out where
   | addp (r : List (Nat × Int))
   | prod (code base ls : Int)
   | ok
-  | fetch (err sid : Int) (ps : List PResp)
+  | fetch (elapsed err sid : Int) (ps : List PResp)
 deriving Repr
 
 /-- one request, then the `updateTimer` call that follows every request. -/
@@ -489,7 +587,7 @@ def step (s : State) : Op → State × Out
     | none => (s, .codeVal 3 0)
     | some pd => let r := deleteRecords pd off; (expireAll (setPart s p r.1), .codeVal r.2.1 r.2.2)
   | .sleep ms => (expireAll { s with now := s.now + ms }, .ok)
-  | .fetch f ord => let r := fetch s f ord; (expireAll r.1, .fetch r.2.1 r.2.2.1 r.2.2.2)
+  | .fetch f ord => let r := fetchW s f ord; (expireAll r.1, .fetch r.2.1 r.2.2.1 r.2.2.2.1 r.2.2.2.2)
 
 def run (s : State) : List Op → State
   | [] => s
